@@ -195,6 +195,9 @@ def conclude(prop, tier, seed, m, dead, extra, t_start):
     if m['distinct_nontrivial'] < prop.min_nontrivial:
         inconclusive.append('only %d distinct non-trivial cases (< %d)' % (
             m['distinct_nontrivial'], prop.min_nontrivial))
+    for fn in getattr(prop, 'reach_required', ()):
+        if m['evaluations_probed'] and not m['counters'].get('reach:' + fn, 0):
+            inconclusive.append('anchored function %s was never executed by the workload' % fn)
     try:
         inconclusive += list(prop.gates(m, tier) or [])
     except Exception as e:  # a gate that cannot be computed is unmet
@@ -267,6 +270,16 @@ def write_evidence(prop, tier, seed, m, n_viol, known_lines, inconclusive,
         'worker_wall_s': m['worker_wall_s'],
         'repo': env.repo_state(),
     }
+    reach = {k[6:]: v for k, v in m['counters'].items() if k.startswith('reach:')}
+    if reach:
+        cov['reach_functions_executed'] = len(reach)
+        cov['reach_calls'] = dict(sorted(reach.items(), key=lambda kv: -kv[1])[:40])
+        cov['reach_lines_executed'] = {g[6:]: len(v) for g, v in m['sets'].items()
+                                       if g.startswith('lines:')}
+        cov['observed_counters'] = {k: v for k, v in cov['observed_counters'].items()
+                                    if not k.startswith('reach:')}
+        cov['observed_values'] = {g: v for g, v in cov['observed_values'].items()
+                                  if not g.startswith('lines:')}
     ex = prop.exhaustive.get(tier) if isinstance(prop.exhaustive, dict) else None
     if ex:
         cov['exhaustive'] = True
